@@ -69,6 +69,7 @@ type frame struct {
 	panic            interface{}
 	phitemps         []value // temporaries for parallel phi assignment
 	depth            int
+	skipPhis         bool // the phis of fr.block were already assigned (if-conversion)
 }
 
 func (fr *frame) get(key ssa.Value) value {
@@ -322,6 +323,9 @@ func visitInstr(fr *frame, instr ssa.Instruction) continuation {
 		cv := fr.get(instr.Cond)
 		if c0, isSym := cv.(sv); isSym {
 			if fr.ifChain(instr, c0) {
+				return kJump
+			}
+			if fr.ifConvert(c0.T, fr.block.Succs[0], fr.block, fr.block.Succs[1], fr.block) {
 				return kJump
 			}
 		}
@@ -728,6 +732,10 @@ func executePhis(fr *frame) []ssa.Instruction {
 		}
 	}
 	nonPhis := fr.block.Instrs[firstNonPhi:]
+	if fr.skipPhis {
+		fr.skipPhis = false
+		return nonPhis
+	}
 	if firstNonPhi > 0 {
 		phis := fr.block.Instrs[:firstNonPhi]
 		predIndex := slices.Index(fr.block.Preds, fr.prevBlock)
@@ -912,6 +920,15 @@ func (fr *frame) ifChain(first *ssa.If, c0 sv) bool {
 		} else {
 			d = sym.And(conds...)
 		}
+		if orMode {
+			if fr.ifConvert(d, target, b0, last.Succs[next], last) {
+				return true
+			}
+		} else {
+			if fr.ifConvert(d, last.Succs[next], last, target, b0) {
+				return true
+			}
+		}
 		r := fr.decide(d)
 		if r == orMode {
 			// common target reached (some disjunct true / some conjunct false)
@@ -922,4 +939,149 @@ func (fr *frame) ifChain(first *ssa.If, c0 sv) bool {
 		return true
 	}
 	return false
+}
+
+// pureNativeCalls are natives without side effects that never fork or panic on scalars.
+var pureNativeCalls = map[string]bool{
+	"unicode.ToLower": true, "unicode.ToUpper": true,
+	"math.Abs": true, "math.Max": true, "math.Min": true,
+}
+
+var pureJumpCache = map[*ssa.BasicBlock]bool{}
+
+// pureJump reports whether b computes only side-effect-free scalar values and ends in a Jump.
+func pureJump(b *ssa.BasicBlock) bool {
+	if r, ok := pureJumpCache[b]; ok {
+		return r
+	}
+	ok := len(b.Preds) == 1 && len(b.Instrs) >= 1 && len(b.Instrs) <= 8
+	if ok {
+		if _, isJ := b.Instrs[len(b.Instrs)-1].(*ssa.Jump); !isJ {
+			ok = false
+		}
+	}
+	if ok {
+		for _, in := range b.Instrs[:len(b.Instrs)-1] {
+			switch x := in.(type) {
+			case *ssa.BinOp:
+				switch x.Op {
+				case token.QUO, token.REM, token.SHL, token.SHR:
+					ok = false
+				}
+				if _, isB := x.X.Type().Underlying().(*types.Basic); !isB {
+					ok = false
+				}
+			case *ssa.UnOp:
+				if x.Op == token.MUL || x.Op == token.ARROW {
+					ok = false
+				}
+			case *ssa.Convert:
+				_, b1 := x.Type().Underlying().(*types.Basic)
+				_, b2 := x.X.Type().Underlying().(*types.Basic)
+				if !b1 || !b2 || basicKind(x.Type()) == types.String || basicKind(x.X.Type()) == types.String {
+					ok = false
+				}
+			case *ssa.Call:
+				f := x.Call.StaticCallee()
+				if f == nil || !pureNativeCalls[f.String()] {
+					ok = false
+				}
+			case *ssa.DebugRef:
+			default:
+				ok = false
+			}
+		}
+	}
+	pureJumpCache[b] = ok
+	return ok
+}
+
+// iteVals returns ite(c, a, b) for values of a common shape.
+func iteVals(c *sym.Term, a, b value) (value, bool) {
+	// reuse mergeVals with a one-bit selector: index 0 -> a, otherwise b
+	sel := sym.Ite(c, sym.BVConst(64, 0), sym.BVConst(64, 1))
+	return mergeVals([]value{a, b}, sel)
+}
+
+// specExec evaluates the value instructions of a pure block; it reports failure
+// (and leaves no side effects) when something cannot be evaluated speculatively.
+func (fr *frame) specExec(b *ssa.BasicBlock) (ok bool) {
+	ok = true
+	defer func() {
+		if p := recover(); p != nil {
+			ok = false
+		}
+	}()
+	for _, in := range b.Instrs[:len(b.Instrs)-1] {
+		if _, isDbg := in.(*ssa.DebugRef); isDbg {
+			continue
+		}
+		visitInstr(fr, in)
+	}
+	return ok
+}
+
+// ifConvert turns a triangle or diamond of pure blocks into ite-terms on the
+// join block's phis instead of forking. c is the branch condition; tBlock is
+// entered from tPrev when c holds, fBlock from fPrev otherwise.
+func (fr *frame) ifConvert(c *sym.Term, tBlock, tPrev, fBlock, fPrev *ssa.BasicBlock) bool {
+	if c.IsConst() {
+		return false
+	}
+	var join *ssa.BasicBlock
+	tPure := pureJump(tBlock) && tBlock.Preds[0] == tPrev
+	fPure := pureJump(fBlock) && fBlock.Preds[0] == fPrev
+	var tFrom, fFrom *ssa.BasicBlock // predecessors of join on each side
+	switch {
+	case tPure && tBlock.Succs[0] == fBlock:
+		join, tFrom, fFrom = fBlock, tBlock, fPrev
+		fPure = false
+	case fPure && fBlock.Succs[0] == tBlock:
+		join, tFrom, fFrom = tBlock, tPrev, fBlock
+		tPure = false
+	case tPure && fPure && tBlock.Succs[0] == fBlock.Succs[0]:
+		join, tFrom, fFrom = tBlock.Succs[0], tBlock, fBlock
+	default:
+		return false
+	}
+	if tFrom == fFrom {
+		return false
+	}
+	// join must start with phis only needing scalar-like merges
+	var phis []*ssa.Phi
+	for _, in := range join.Instrs {
+		phi, ok := in.(*ssa.Phi)
+		if !ok {
+			break
+		}
+		phis = append(phis, phi)
+	}
+	if len(phis) == 0 {
+		return false
+	}
+	kt, kf := slices.Index(join.Preds, tFrom), slices.Index(join.Preds, fFrom)
+	if kt < 0 || kf < 0 {
+		return false
+	}
+	if tPure && !fr.specExec(tBlock) {
+		return false
+	}
+	if fPure && !fr.specExec(fBlock) {
+		return false
+	}
+	vals := make([]value, len(phis))
+	for i, phi := range phis {
+		vt, vf := fr.get(phi.Edges[kt]), fr.get(phi.Edges[kf])
+		m, ok := iteVals(c, vt, vf)
+		if !ok {
+			return false
+		}
+		vals[i] = m
+	}
+	for i, phi := range phis {
+		fr.env[phi] = vals[i]
+	}
+	fr.prevBlock, fr.block = tFrom, join
+	fr.skipPhis = true
+	return true
 }
